@@ -149,6 +149,32 @@ def _quiet():
     return contextlib.redirect_stdout(io.StringIO())
 
 
+class TrialTimeout(BaseException):
+    """Raised by the alarm around a call into the implementation (BaseException: not swallowed by `except Exception`)."""
+
+
+# one look + save + re-read history takes 0.05 s on the synthesised files and up to 3 s on the bundled map under load; a
+# call into the implementation that has not returned after this many seconds is reported as a failing input (`hangs`)
+TRIAL_LIMIT_S = 60
+
+
+def with_alarm(seconds: float, fn, *args, **kw):
+    import signal
+    import threading
+    if threading.current_thread() is not threading.main_thread():
+        return fn(*args, **kw)
+
+    def on_alarm(signum, frame):
+        raise TrialTimeout()
+    old = signal.signal(signal.SIGALRM, on_alarm)
+    signal.setitimer(signal.ITIMER_REAL, seconds)
+    try:
+        return fn(*args, **kw)
+    finally:
+        signal.setitimer(signal.ITIMER_REAL, 0)
+        signal.signal(signal.SIGALRM, old)
+
+
 def open_bsp(path):
     from srctools.bsp import BSP
     with _quiet():
@@ -557,7 +583,11 @@ def correspondence(ck: Ck, side: dict, subjects: list[Subject], work: Path) -> N
     n = ck.budget(60, 600)
     cases = []
     missing: set[tuple[str, str, str]] = set()
+    hung = False
     for subj in subjects:
+        if hung:
+            ck.notes.append(f'correspondence: {subj.name} skipped after a traced run did not return')
+            continue
         ref_nonempty = {l for l, (_, _, d) in subj.ref['lumps'].items() if d} | \
                        {'game:' + g[0].decode() for g in subj.ref['games'] if g[3]}
         seqs = [[v] for v in VIEWS] + [list(VIEWS), list(reversed(VIEWS))]
@@ -568,7 +598,8 @@ def correspondence(ck: Ck, side: dict, subjects: list[Subject], work: Path) -> N
         with Tracer() as tr:
             for accs in seqs:
                 flags = []
-                try:
+
+                def traced_run(accs=accs, flags=flags):
                     b = open_bsp(subj.path)
                     for v in accs:
                         try:
@@ -584,9 +615,15 @@ def correspondence(ck: Ck, side: dict, subjects: list[Subject], work: Path) -> N
                         saved = True
                     except Exception:      # noqa: BLE001
                         saved = False
-                    o2 = observe(b, ref_nonempty, pos, tr)
-                except Exception as e:      # noqa: BLE001 - reported by the search stage with a replay
+                    return o1, saved, observe(b, ref_nonempty, pos, tr)
+                try:
+                    o1, saved, o2 = with_alarm(TRIAL_LIMIT_S, traced_run)
+                except (Exception, TrialTimeout) as e:      # noqa: BLE001 - reported by the search stage with a replay
+                    tr.stack.clear()
                     ck.notes.append(f'correspondence: {subj.name} {accs}: {type(e).__name__}: {e}')
+                    if isinstance(e, TrialTimeout):
+                        hung = True         # every further traced run could cost the time limit again: the search reports it
+                        break
                     continue
                 runs.append((accs, flags, o1, saved, o2))
                 ck.count('correspondence_runs')
@@ -662,6 +699,8 @@ Definition sim (g : graph) (ne bad : list nat) (accs : list nat) :=
     if bad:
         ck.tie_broken.append('correspondence get/save (SM/LazyLumps.v vs ParsedLump.__get__/BSP.save)')
         ck.extra['get_save_disagreement'] = bad[:3]
+    if not cases or not cases[-1][2]:
+        return
     last = cases[-1][2][-1]
     ck.sample({'correspondence_case': {'file': cases[-1][0].name, 'accs': last[0], 'look_ok': last[1],
                                        'impl_after_look(cached,emptied)': last[2], 'save_ok': last[3], 'impl_after_save': last[4]}})
@@ -1104,37 +1143,73 @@ def run(ck: Ck) -> None:
     else:
         ck.notes.append('tests/test_vec/rot_main.bsp missing')
     synth_subjects: list[tuple[dict, Subject]] = []
+
+    def guarded_subject(opts: dict, seed: int, tag: str) -> Subject | None:
+        """Reading a well-formed synthesised file must neither raise nor hang: either is a failing input of its own."""
+        try:
+            return with_alarm(TRIAL_LIMIT_S, make_subject, work, opts, seed, tag)
+        except TrialTimeout:
+            what = f'BSP() does not return within {TRIAL_LIMIT_S} s'
+        except Exception as e:      # noqa: BLE001
+            what = f'BSP() raises {type(e).__name__}: {e}'
+        tagk = ','.join(f'{k}={"+".join(v) if isinstance(v, tuple) else v}' for k, v in sorted(opts.items())) or 'default'
+        ck.violation(f'read-fails|input:{tagk}', what, {'input': {'opts': opts, 'seed': seed}, 'cycles': [],
+                                                        'how': 'harness.c10_util.synth(random.Random(seed), **opts) -> BSP(file)'})
+        return None
     for k, opts in enumerate(VARIANTS):
-        s = make_subject(work, opts, ck.seed + k, f'v{k}')
+        s = guarded_subject(opts, ck.seed + k, f'v{k}')
+        if s is None:
+            if k == 1:
+                return      # the default file cannot even be read: nothing else can be said
+            continue
         synth_subjects.append((opts, s))
         ck.hist('input_layout', dict(DEFAULT_OPTS, **opts)['layout'])
-    default = synth_subjects[1][1]      # layout v20, default options
+    default = next(s for o, s in synth_subjects if o == dict(layout='v20'))      # layout v20, default options
     bad_subjects: list[tuple[dict, Subject]] = []
     for k, opts in enumerate(BAD_VARIANTS):
-        bad_subjects.append((opts, make_subject(work, opts, ck.seed + 100 + k, f'b{k}')))
+        s = guarded_subject(opts, ck.seed + 100 + k, f'b{k}')
+        if s is not None:
+            bad_subjects.append((opts, s))
         ck.hist('input_malformed', '+'.join(opts['bad']))
     # ---------------------------------------------------------------------------- correspondence
     if built and side:
-        aux_zero = next(s for o, s in synth_subjects if o == dict(aux='zero'))
-        corr_files = [default, synth_subjects[0][1], synth_subjects[5][1], aux_zero] + subjects[:1] + \
-                     [bad_subjects[1][1], bad_subjects[3][1], bad_subjects[5][1]]
+        corr_files = [default] + [s for o, s in synth_subjects if o in (dict(layout='v19'), dict(layout='chaos'), dict(aux='zero'))] + \
+            subjects[:1] + [s for o, s in bad_subjects if o in (BAD_VARIANTS[1], BAD_VARIANTS[3], BAD_VARIANTS[5])]
         correspondence(ck, side, corr_files, work)
-        container_check(ck, [s for o, s in synth_subjects if 'aux' not in o] + [s for _, s in bad_subjects[:2]] + subjects[:1], work)
-        container_model_check(ck, work)
+        # stage limits: 10 s / 10 s on a loaded machine; a save or read that never returns ends as a failed tie, not as a hung check
+        for nm, fn, args in (('correspondence:container', container_check,
+                              ([s for o, s in synth_subjects if 'aux' not in o] + [s for _, s in bad_subjects[:2]] + subjects[:1], work)),
+                             ('correspondence:container-model', container_model_check, (work,))):
+            try:
+                with_alarm(1200, fn, ck, *args)
+            except TrialTimeout:
+                ck.obligation(nm, False, 'stage did not return within 1200 s (a call into BSP() / BSP.save hangs)')
+                ck.tie_broken.append(nm + ': stage timed out')
     tm['inputs+correspondence'] = round(time.time() - t0, 1)
     t0 = time.time()
     # ---------------------------------------------------------------------------- search
     found: dict[str, dict] = {}
     rng = ck.rng
 
+    hangs = [0]
+
     def attempt(subj: Subject, opts: dict | None, cycles: list[list[str]]) -> None:
+        if hangs[0] >= 2:       # two histories that do not return are reported; every further one could cost the limit again
+            ck.count('save_roundtrips_skipped_after_hangs')
+            return
         ck.count('save_roundtrips')
         for accs in cycles:
             ck.hist('views_per_cycle', len(accs))
         ck.hist('cycles', len(cycles))
         if any(cycles):
             ck.seen((subj.name, tuple(tuple(c) for c in cycles)))
-        probs = run_trial(subj, cycles, work, own)
+        try:
+            probs = with_alarm(TRIAL_LIMIT_S, run_trial, subj, cycles, work, own)
+        except TrialTimeout:
+            hangs[0] += 1
+            probs = [('hangs', f'no result after {TRIAL_LIMIT_S} s (a look, save or re-read does not return)')]
+        except Exception as e:      # noqa: BLE001 - anything the oracle itself did not expect from the implementation
+            probs = [('oracle-raises', f'{type(e).__name__}: {e}')]
         for kind, detail in probs:
             report(subj, opts, cycles, kind, detail)
 
@@ -1150,12 +1225,31 @@ def run(ck: Ck) -> None:
                                    'n': 0, 'how': 'checks.c10.replay'})['n'] += 1
             seen_cause[kind, subj.name] = key
             return
+        if kind in ('hangs', 'oracle-raises'):      # not shrunk: every further attempt would cost the time limit again
+            if kind == 'hangs':     # ... except for one cheap pass: which single view does not come back within 10 s
+                for v in dict.fromkeys(v for c in cycles for v in c):
+                    try:
+                        with_alarm(10, run_trial, subj, [[v]], work, own)
+                    except TrialTimeout:
+                        cycles = [[v]]
+                        break
+                    except Exception:      # noqa: BLE001
+                        pass
+            viewed = '+'.join(sorted({v for c in cycles for v in c})) or 'nothing'
+            key = f'{kind}|viewed={viewed}|' + ('file=' + subj.name if opts is None else 'input:' + (','.join(f'{k}={v}' for k, v in sorted(opts.items())) or 'default'))
+            seen_cause[kind, subj.name] = key
+            found.setdefault(key, {'kind': kind, 'detail': detail, 'input': subj.desc, 'cycles': cycles, 'original_cycles': cycles,
+                                   'n': 0, 'how': 'checks.c10.replay'})['n'] += 1
+            return
         memo_t: dict = {}
 
         def fails_with(sub: Subject, cyc) -> bool:
             k = (sub.name, sub.desc.get('seed'), repr(cyc))
             if k not in memo_t:
-                memo_t[k] = any(k2 == kind for k2, _ in run_trial(sub, cyc, work, own))
+                try:
+                    memo_t[k] = any(k2 == kind for k2, _ in with_alarm(TRIAL_LIMIT_S, run_trial, sub, cyc, work, own))
+                except TrialTimeout:
+                    memo_t[k] = False
             return memo_t[k]
         # shrink the history: fewer cycles, fewer views, then views deeper in the dependency graph
         cyc = [list(c) for c in cycles]
@@ -1197,17 +1291,18 @@ def run(ck: Ck) -> None:
         found[key]['n'] += 1
 
     # corpus: past failures first
-    attempt(default, synth_subjects[1][0], [['water_leaf_info']])
+    attempt(default, dict(layout='v20'), [['water_leaf_info']])
     for k, (opts, s) in enumerate(synth_subjects):
         attempt(s, opts, [[]])
         attempt(s, opts, [list(VIEWS)])
-        if k < len(c10_util.LAYOUTS) or ck.budget(0, 1):
+        is_layout = set(opts) == {'layout'}
+        if is_layout or ck.budget(0, 1):
             attempt(s, opts, [list(reversed(VIEWS))])
         # every single view on every layout (quick: on v19, v20, l4d2, chaos, vitamin; a sample of 8 on v21 and infra, which share
         # their lump layouts' code paths with v20 / chaos); on the option variants a sample of 4 in the quick tier
-        if (k < len(c10_util.LAYOUTS) and dict(DEFAULT_OPTS, **opts)['layout'] not in ('v21', 'infra')) or ck.budget(0, 1):
+        if (is_layout and opts['layout'] not in ('v21', 'infra')) or ck.budget(0, 1):
             singles = VIEWS
-        elif k < len(c10_util.LAYOUTS):
+        elif is_layout:
             singles = rng.sample(VIEWS, 8)
         elif 'sprp' in opts or 'empty' in opts:     # the game-lump views and what their readers reach
             singles = ['props', 'detail_props', 'overlays', 'cubemaps']
@@ -1219,7 +1314,15 @@ def run(ck: Ck) -> None:
             attempt(s, opts, [[v]])
     # malformed lumps: looks that raise are caught (like a defensive caller does), then the object is saved
     for opts, s in bad_subjects:
-        failing = [v for v in VIEWS if s.unparsable(v)]
+        if hangs[0] >= 2:
+            continue
+        try:
+            failing = with_alarm(TRIAL_LIMIT_S * 2, lambda s=s: [v for v in VIEWS if s.unparsable(v)])
+        except TrialTimeout:
+            hangs[0] += 1
+            failing = []
+        if not failing:     # reading the views of this input hangs or nothing fails any more: the generic histories below still run
+            failing = ['props']
         ck.hist('unparsable_views_per_malformed_input', len(failing))
         attempt(s, opts, [[]])
         attempt(s, opts, [list(VIEWS)])
@@ -1232,7 +1335,7 @@ def run(ck: Ck) -> None:
             attempt(s, opts, cyc)
     for k, (a, b) in enumerate(itertools.permutations(VIEWS, 2)):
         if (a < b and k % 5 == 0) or ck.budget(0, 1):
-            attempt(default, synth_subjects[1][0], [[a, b]])
+            attempt(default, dict(layout='v20'), [[a, b]])
     nrand = ck.budget(32, 3000)
     for i in range(nrand):
         opts, s = synth_subjects[rng.randrange(len(synth_subjects))]
@@ -1259,8 +1362,12 @@ def run(ck: Ck) -> None:
         for i in range(ck.budget(1, 60)):
             attempt(subj, None, [rng.sample(VIEWS, rng.choice([2, 3, 6, 12])) for _ in range(rng.choice([1, 2]))])
     tm['search_sample_map'] = round(time.time() - t0, 1)
-    ck.sample({'input': default.desc, 'cycles': [['faces', 'ents'], ['bmodels']],
-               'result': run_trial(default, [['faces', 'ents'], ['bmodels']], work, own) or 'lossless'})
+    if hangs[0] < 2:
+        try:
+            ck.sample({'input': default.desc, 'cycles': [['faces', 'ents'], ['bmodels']],
+                       'result': with_alarm(TRIAL_LIMIT_S, run_trial, default, [['faces', 'ents'], ['bmodels']], work, own) or 'lossless'})
+        except TrialTimeout:
+            pass
     # a broken graph obligation that the small search could not turn into a failing history: search harder
     # findings recorded as known (known_findings.json) explain nothing: only NEW concrete histories may account for a broken tie
     from harness.common import load_known
@@ -1311,7 +1418,9 @@ def run(ck: Ck) -> None:
             if inst.get(nm) is False:
                 ck.explain('instance:' + nm)
     # a false codec premise is explained by a concrete look + save history that changes content, raises or is unstable
-    if kinds & {'view-content-changed', 'save-raises', 'look-raises', 'reread-fails', 'second-save-differs', 'raw-changed'}:
+    if kinds & {'hangs', 'oracle-raises'}:
+        ck.explain('correspondence:')
+    if kinds & {'view-content-changed', 'save-raises', 'look-raises', 'reread-fails', 'second-save-differs', 'raw-changed', 'hangs'}:
         for nm, ok in codec.items():
             if not ok:
                 ck.explain('instance:' + nm)
@@ -1328,11 +1437,19 @@ def replay(data: dict) -> int:
             subj = Subject('rot_main.bsp', REPO / r['input']['file'], r['input'])
         elif 'opts' in r.get('input', {}):
             opts = {k: tuple(v) if isinstance(v, list) else v for k, v in r['input']['opts'].items()}
-            subj = make_subject(work, opts, r['input']['seed'], 'replay')
+            try:
+                subj = with_alarm(TRIAL_LIMIT_S, make_subject, work, opts, r['input']['seed'], 'replay')
+            except (Exception, TrialTimeout) as e:      # noqa: BLE001
+                print('input:', opts)
+                print('PROBLEM', ('read-fails', f'BSP() of the synthesised file: {type(e).__name__}: {e}'))
+                return 0
         else:
             print(r)
             return 0
-        probs = run_trial(subj, r['cycles'], work, owners(None))
+        try:
+            probs = with_alarm(TRIAL_LIMIT_S, run_trial, subj, r['cycles'], work, owners(None))
+        except TrialTimeout:
+            probs = [('hangs', f'no result after {TRIAL_LIMIT_S} s')]
         print('input:', subj.desc)
         print('cycles:', r['cycles'])
         for p in probs:
